@@ -116,6 +116,33 @@ theorem deterministic (s s' : Store) (user path : Bytes) (now : Int)
     lookup s user path now = lookup s' user path now := by
   exact lookup_congr hb hl hid user path now
 
+/-- what proxyHandler answers with, as a function of the order of its two look-ups -/
+inductive Answer where
+  | notFound | fromCache | forward (backend : Bytes)
+  deriving DecidableEq, Repr
+
+def handlerAnswer (lookupFirst : Bool) (route : Option Bytes) (isGet cached : Bool) : Answer :=
+  if lookupFirst then
+    match route with
+    | none => .notFound
+    | some b => if isGet && cached then .fromCache else .forward b
+  else if isGet && cached then .fromCache
+  else match route with
+    | none => .notFound
+    | some b => .forward b
+
+/-- regenerated fact: in proxyHandler the routing decision (s.LookupBackend) comes before the first call that can
+    answer the client (readCachedResponse / memcache.Get / forwardResponse) -/
+theorem routing_precedes_every_answer : app_lookupPrecedesAnswers = true := by decide
+
+/-- hence, without a live matching backend the answer is 404 whatever earlier requests left in the cache -/
+theorem no_route_is_404 (isGet cached : Bool) :
+    handlerAnswer app_lookupPrecedesAnswers none isGet cached = .notFound := by
+  simp [routing_precedes_every_answer, handlerAnswer]
+
+/-- with the other order the same request would be answered from the cache (why the order matters) -/
+theorem cache_first_counterexample : handlerAnswer false none true true = .fromCache := by decide
+
 -- non-vacuity
 example : mostSpecific [47,97,47,98] [⟨[49],[],[117],[[47],[47,97]]⟩, ⟨[50],[],[117],[[47,97,47]]⟩] = some [50] := by decide
 example : mostSpecific [47,97,47,98] [⟨[49],[],[117],[[47,97]]⟩, ⟨[50],[],[117],[[47,97]]⟩] = some [49] := by decide
